@@ -71,11 +71,14 @@ def _run_job(args):
     t0 = time.time()
     from harness import core
     before = dict(core.STYLE_COUNTS)
+    fbefore = core.FAULT_COUNTS["failing_call_first"]
     res = mod.run(job)
     d = res.to_dict() if hasattr(res, "to_dict") else res
     for k, v in core.STYLE_COUNTS.items():          # how many library calls were re-written by keyword / by position
         if v - before.get(k, 0):
             d["classes"]["calls_rewritten_" + k] = d["classes"].get("calls_rewritten_" + k, 0) + v - before.get(k, 0)
+    if core.FAULT_COUNTS["failing_call_first"] - fbefore:
+        d["classes"]["failing_call_made_first"] = core.FAULT_COUNTS["failing_call_first"] - fbefore
     d["wall_s"] = time.time() - t0
     d["job"] = {k: v for k, v in job.items() if isinstance(v, (int, float, str, bool, type(None)))}
     return d
